@@ -240,6 +240,12 @@ def binop(eng, op, l, r):
         return l.sym_binop(eng, op, r, False)
     if isinstance(r, Ext):
         return r.sym_binop(eng, op, l, True)
+    # dict.keys() / dict.items() are set-like: d.keys() - {...}, d.keys() & other.keys(), ... give a set
+    if op in ("BitOr", "BitAnd", "Sub", "BitXor"):
+        if isinstance(l, DictView) and l.what in ("keys", "items") and (isinstance(r, (VSet, DictView))):
+            l = VSet(l.materialize())
+        if isinstance(r, DictView) and r.what in ("keys", "items") and isinstance(l, VSet):
+            r = VSet(r.materialize())
     kl, kr = kind(l), kind(r)
     num = ("bool", "int", "float")
     if kl in num and kr in num:
@@ -304,6 +310,15 @@ def binop(eng, op, l, r):
             s = VSet()
             for x in l.items:
                 if not eng.branch(contains_expr(eng, r, x)):
+                    s.items.append(x)
+            return s
+        if op == "BitXor":
+            s = VSet()
+            for x in l.items:
+                if not eng.branch(contains_expr(eng, r, x)):
+                    s.items.append(x)
+            for x in r.items:
+                if not eng.branch(contains_expr(eng, l, x)):
                     s.items.append(x)
             return s
     if kl == "obj":
